@@ -17,6 +17,9 @@ Line-protocol front end of the C02 model.
   parts, native FFT order), applied to the unit impulse in component `b`, sample `j`; `bwd` uses
   `fmCtrX` (`field_conjugate_transpose`).  Answers all outputs `(a, i)`, component-major, as
   `c:t:r+…` sums separated by `;`.
+* `filtermm fwd|bwd n M ncol [re…] [im…] b c j` — `filterMXM`: the same branch on a matrix-valued field of
+  tensor shape `(2, ncol)`; unit impulse in row `b`, column `c`, sample `j`; all outputs `(a, c', i)`
+  row-major.
 -/
 namespace HcipyVerif.Driver.C02
 open HcipyVerif.Proto HcipyVerif.Fft
@@ -70,6 +73,16 @@ def step (st : St) : List String → St × String
         let outs := filterMImpulse (dir == "bwd") n M re im (b == 1) j
         (st, "ok " ++ ";".intercalate (outs.map showPSumFull))
     | _, _, _, _, _, _ => (st, "bad-op")
+  | ["filtermm", dir, n, M, ncol, res, ims, b, c, j] =>
+    match parseNat? n, parseNat? M, parseNat? ncol, parseRatList? res, parseRatList? ims, parseNat? b, parseNat? c, parseNat? j with
+    | some n, some M, some ncol, some re, some im, some b, some c, some j =>
+      if dir != "fwd" && dir != "bwd" then (st, "bad-op")
+      else if M = 0 || n = 0 || n > M || ncol = 0 || re.length != 4 * M || im.length != 4 * M || b > 1 || c ≥ ncol || j ≥ n then
+        (st, "err value")
+      else
+        let outs := filterMMImpulse (dir == "bwd") n M ncol re im (b == 1) c j
+        (st, "ok " ++ ";".intercalate (outs.map showPSumFull))
+    | _, _, _, _, _, _, _, _ => (st, "bad-op")
   | _ => (st, "bad-op")
 
 end HcipyVerif.Driver.C02
